@@ -99,7 +99,23 @@ pub fn worker_handle(line: &str) -> String {
                 Ok(r) => {
                     // the other entry point must agree
                     let same = match Requirement::<VerbatimUrl>::from_str(&text) { Ok(r2) => r2 == r, Err(_) => false };
-                    format!("{}{}{gnote}", req_line(&r, &warns), if same { "" } else { " ENTRYPOINTS-DIFFER" })
+                    // the small API of the URL type: every accessor / conversion is the same URL
+                    let urlapi = match &r.version_or_url {
+                        Some(VersionOrUrl::Url(u)) => {
+                            use std::ops::Deref;
+                            let plain = u.to_url();
+                            let scheme_ok = match pep508_rs::Scheme::parse(plain.scheme()) { Some(sc) => sc.to_string() == plain.scheme() && sc.is_file() == (plain.scheme() == "file"), None => cfg!(feature = "ext") };
+                            let reparsed = VerbatimUrl::from_str(&u.to_string());
+                            if *u.raw() != plain || u.clone().into_url() != plain || *u.deref() != plain { " URLAPI-DIFFER:raw/into_url/deref" }
+                            else if VerbatimUrl::from_url(plain.clone()) != *u || VerbatimUrl::from(plain.clone()) != *u { " URLAPI-DIFFER:from_url" }
+                            else if u.partial_cmp(u) != Some(std::cmp::Ordering::Equal) || u.partial_cmp(&VerbatimUrl::from_url(plain.clone())) != Some(u.cmp(&VerbatimUrl::from_url(plain.clone()))) { " URLAPI-DIFFER:partial_cmp" }
+                            else if !reparsed.as_ref().is_ok_and(|v| v == u && v.given() == Some(u.to_string().as_str())) { " URLAPI-DIFFER:from_str" }
+                            else if { #[cfg(feature = "ext")] { plain.scheme() == "file" && u.as_path().ok() != plain.to_file_path().ok() } #[cfg(not(feature = "ext"))] { false } } { " URLAPI-DIFFER:as_path" }
+                            else if !scheme_ok { " URLAPI-DIFFER:scheme" } else { "" }
+                        }
+                        _ => "",
+                    };
+                    format!("{}{}{gnote}{urlapi}", req_line(&r, &warns), if same { "" } else { " ENTRYPOINTS-DIFFER" })
                 }
                 Err(e) if !gnote.is_empty() => {
                     let rendered = std::panic::catch_unwind(std::panic::AssertUnwindSafe(|| e.to_string())).ok();
@@ -133,7 +149,15 @@ pub fn worker_handle(line: &str) -> String {
                     };
                     let mtext = u.marker.contents().map(|c| hex(&c.to_string())).unwrap_or("none".into());
                     let carve = u.marker.is_false();
-                    format!("ok given={} url={} extras={} marker={} w={} shown={} mtext={} rt={} carve={}", hex(u.url.given().unwrap_or("")), hex(&u.url.to_string()), if extras.is_empty() { "-".to_string() } else { extras.join(";") }, dump(&u.marker), w, hex(&shown), mtext, rt, carve as u8)
+                    // `FromStr` (no working directory): the same requirement when the text does not depend on one
+                    let abs = { let t = text.trim_start(); t.starts_with('/') || t.starts_with("file:///") || t.starts_with("file://localhost/") || scheme_of(t).is_some_and(|sc| sc != "file" && SUPPORTED_SCHEMES.contains(&sc)) };
+                    let from_str = std::panic::catch_unwind(|| pep508_rs::UnnamedRequirement::<VerbatimUrl>::from_str(&text));
+                    let fs_note = match from_str {
+                        Err(_) => " UNNAMED-FROMSTR:panic",
+                        Ok(Ok(u2)) => if abs && (u2.url != u.url || u2.extras != u.extras || u2.marker != u.marker || u2.url.given() != u.url.given()) { " UNNAMED-FROMSTR:differs" } else { "" },
+                        Ok(Err(_)) => if abs { " UNNAMED-FROMSTR:rejected" } else { "" },
+                    };
+                    format!("ok given={} url={} extras={} marker={} w={} shown={} mtext={} rt={} carve={}", hex(u.url.given().unwrap_or("")), hex(&u.url.to_string()), if extras.is_empty() { "-".to_string() } else { extras.join(";") }, dump(&u.marker), w, hex(&shown), mtext, rt, format!("{}{fs_note}", carve as u8))
                 }
                 Err(e) => {
                     let rendered = std::panic::catch_unwind(std::panic::AssertUnwindSafe(|| e.to_string())).ok();
@@ -284,6 +308,7 @@ pub fn unnamed_case(out: &mut Out, w: &mut Worker, rc: &mut ReqCases, text: &str
         if ans.contains("boundary=0") { out.oracle_fail("C06", "UnnamedRequirement error span does not start on a char boundary", input.clone()); }
     } else {
         out.stat("unnamed.ok");
+        if let Some((_, why)) = ans.split_once(" UNNAMED-FROMSTR:") { out.oracle_fail("C19", &format!("UnnamedRequirement::from_str and UnnamedRequirement::parse disagree on a text that does not depend on the working directory ({why})"), input.clone()); }
         let field = |k: &str| ans.split(' ').find_map(|f| f.strip_prefix(k)).unwrap_or("").to_string();
         let (given, url, extras, shown, mtext, rt, carve) = (unhex(&field("given=")), field("url="), field("extras="), field("shown="), field("mtext="), field("rt="), field("carve="));
         // Display against its model
@@ -309,6 +334,7 @@ fn corr_part(ans: &str) -> String {
     } else {
         let a = ans.replace(" ENTRYPOINTS-DIFFER", "");
         let a = match a.find(" GENERIC-DIFFER:") { Some(i) => a[..i].to_string(), None => a };
+        let a = match a.find(" URLAPI-DIFFER:") { Some(i) => a[..i].to_string(), None => a };
         match a.find(" shown=") { Some(i) => a[..i].to_string(), None => a }
     }
 }
@@ -352,6 +378,7 @@ pub fn req_case(out: &mut Out, w: &mut Worker, rc: &mut ReqCases, prop: &str, te
         //  does not; an absolute file URL or path does not)
         let absolute = text.split_once('@').map(|(_, u)| u.trim_start()).is_some_and(|u| u.starts_with("file:///") || u.starts_with("file://localhost/") || u.starts_with('/') || u.starts_with("http://") || u.starts_with("https://"));
         if ans.contains("ENTRYPOINTS-DIFFER") && (!cfg!(feature = "ext") || absolute) { out.oracle_fail(prop, "Requirement::from_str and Requirement::parse_reporter disagree", input.clone()); }
+        if let Some((_, why)) = ans.split_once(" URLAPI-DIFFER:") { out.oracle_fail(if prop == "C16" { "C16" } else { "C18" }, &format!("the accessors / conversions of the parsed URL do not agree with one another ({why})"), input.clone()); }
         if let Some((_, why)) = ans.split_once(" GENERIC-DIFFER:") { out.oracle_fail(if prop == "C08" { "C08" } else { "C07" }, &format!("the generic parser Requirement<Url> and Requirement<VerbatimUrl> disagree on the same text ({why})"), input.clone()); }
     }
     ans
